@@ -708,6 +708,7 @@ def run(chk):
     defaults(chk, prog)
     # R6: no crash (shared engine)
     entries = [TREE + "parse_conf", CFG + "Config::from_tree"]
+    c03.matcher_affix_assumption(chk, prog, "A", rid="R6.matcher_affixes")
     bodies, sites = panics.inventory(prog, entries)
     allow = panics.load_allow()
     for s in sites:
